@@ -268,6 +268,17 @@ def device(ulpi, full):
         rs = ts.instance(USBResetSequencer)
         of = ts.of
         u_ = d.utmi
+        # everything below is addressed through the real instances (found by class), never through the submodule or local
+        # variable names of USBDevice.elaborate: the sequencer's own registers by its hierarchical position, the device's
+        # address / configuration registers by role (what the token detector filters on / what the endpoints are shown)
+        from luna.gateware.usb.usb2.packet import USBTokenDetector
+        from luna.gateware.usb.usb2.endpoint import USBEndpointMultiplexer
+        from .c10_unsupported_requests_stall import hier, instance_fsm, instance_sig
+        from .w1_usb2_glue import device_register
+        rs_path = "".join(n + "." for n in hier(ts, rs))
+        epmux = ts.instance(USBEndpointMultiplexer)
+        address = device_register(ts, d, [ts.instance(USBTokenDetector).address, epmux.shared.active_address], "address")
+        configuration = device_register(ts, d, [epmux.shared.active_config], "configuration")
         always_fs = 1 if d.always_fs else 0
         # (a) wiring
         c.ensure("w_line_state", of(rs.line_state) == of(u_.line_state), clause="the sequencer sees the PHY's UTMI line state")
@@ -285,19 +296,19 @@ def device(ulpi, full):
         c.ensure("w_chirp_tx", z3.Implies(of(rs.tx.valid) == 1, of(u_.tx_valid) == 1),
                  clause="the sequencer's chirp drives the PHY transmit interface")
         c.ensure("w_bus_reset_clears_address",
-                 z3.Implies(of(rs.bus_reset) == 1, z3.And(c.nx(ts.sig("address")) == 0, c.nx(ts.sig("configuration")) == 0)),
+                 z3.Implies(of(rs.bus_reset) == 1, z3.And(c.nx(address) == 0, c.nx(configuration) == 0)),
                  clause="a reported bus reset returns the device to the unaddressed, unconfigured state")
         X = dict(line=of(rs.line_state), vbus=of(rs.vbus_connected), ls_only=of(rs.low_speed_only),
                  fs_only=of(rs.full_speed_only), bus_reset=of(rs.bus_reset), suspended=of(rs.suspended),
                  speed=of(rs.current_speed), op=of(rs.operating_mode), term=of(rs.termination_select),
                  tx_valid=of(rs.tx.valid), tx_data=of(rs.tx.data))
         if full:
-            body(c, ts, "reset_sequencer.", X, can_chirp=not always_fs)
+            body(c, ts, rs_path, X, can_chirp=not always_fs)
         elif always_fs:
             # (b) restricted for ever: only the full/low-speed part of the FSM is reachable
-            fsm = ts.fsm("reset_sequencer.fsm_state")
+            fsm = instance_fsm(ts, rs)
             c.inv("fs_only_states", fsm.is_("INITIALIZE", "LS_FS_NON_RESET", "SUSPENDED", "DISCONNECT"))
-            c.inv("fs_only_never_hs_suspend", ts.sig("reset_sequencer.was_hs_pre_suspend") == 0)
+            c.inv("fs_only_never_hs_suspend", instance_sig(ts, rs, "was_hs_pre_suspend") == 0)
             c.inv("fs_only_cfg", z3.And(z3.Or(X["speed"] == FULL, X["speed"] == LOW), X["op"] != CHIRP, X["term"] == 1))
             c.ensure("full_speed_only_phy_never_high_speed_or_chirp",
                      z3.And(of(u_.xcvr_select) != HIGH, of(u_.op_mode) != CHIRP, of(rs.tx.valid) == 0),
